@@ -99,7 +99,12 @@ class RefPeer:
                 return          # the holds are not renewed and no grant follows: the peer has fallen silent
             g = self.grant(rx['n'] - rx['got'], rx['limit'])
             rx['window_end'] = rx['got'] + g
-            self.send(R.ref_tp_cm_id(7, rx['sa'], self.addr), R.ref_cts(g, rx['got'] + 1, rx['pgn']))
+            nxt = rx['got'] + 1
+            if self.plan.get('cts_skew') and rx['got'] > 0:
+                # a responder whose later CTS names another packet than the one that follows what it has got (re-requesting an
+                # earlier packet, or skipping ahead): however the originator reads that, it sends no more packets than granted
+                nxt = max(1, min(rx['n'], nxt + self.plan['cts_skew']))
+            self.send(R.ref_tp_cm_id(7, rx['sa'], self.addr), R.ref_cts(g, nxt, rx['pgn']))
         self.later(t, grant_now)
 
     def on_dt21(self, sa, da, data):
